@@ -176,7 +176,7 @@ CELLS = [(a, w, m, t) for a in (0, 1) for w in (0, 1) for m in ("scalar", "zero"
 SIZES = {
     # crit cases (x points each), acq cases (4 acquisition functions x xpoints each), ops cases
     "quick": {"crit": 288, "crit_points": 5, "acq": 160, "acq_mcmc": 64, "acq_x": 5, "ops": 320},
-    "thorough": {"crit": 4800, "crit_points": 5, "acq": 3200, "acq_mcmc": 1280, "acq_x": 5, "ops": 6400},
+    "thorough": {"crit": 2400, "crit_points": 5, "acq": 1600, "acq_mcmc": 640, "acq_x": 5, "ops": 3200},
 }
 
 
@@ -236,7 +236,7 @@ def cases(tier, seed):
 
 def floors(tier):
     """Calibrated on the unchanged tree (seeds 0..4, minimum over the seeds, ~25-30 % margin)."""
-    m = 1 if tier == "quick" else 14
+    m = 1 if tier == "quick" else 7
     f = {}
     for c in CELLS:
         f["decided:crit_point:" + _cell_name(*c)] = 50 * m
